@@ -39,6 +39,15 @@ class Ctx:
             self.violation(rule, key, where, detail_bad if detail_bad is not None else detail_ok)
         return cond
 
+    def advise(self, cond, rule, key, where, detail_ok='', detail_bad=None):
+        """a cost clause: the behaviour the property states is the same either way, only the work done differs. It is evaluated and
+        reported (ADVISORY line, evidence sample), but it is never a violation: the property holds on code that fails it."""
+        if cond:
+            self.ok(rule, key, where, detail_ok)
+        else:
+            self._rec('ADVISORY', rule, key, where, detail_bad if detail_bad is not None else detail_ok)
+        return cond
+
     def missing(self, rule, what, where='-'):
         """an anchor the rule needs cannot be found: fail closed"""
         self._rec('VIOLATION', rule, 'anchor-missing:%s' % what, where,
@@ -147,6 +156,9 @@ def finish(ctx, siblings, t0, seed, cached, quiet=False):
     for o in ctx.obligations:
         if o['verdict'] == 'OK':
             out.append('OK        %-8s %s  %s  %s' % (o['rule'], o['where'], o['key'].split('|', 1)[1], o['detail']))
+    for o in ctx.obligations:
+        if o['verdict'] == 'ADVISORY':
+            out.append('ADVISORY  %-8s %s  %s  %s (cost only: the property holds either way, no violation)' % (o['rule'], o['where'], o['key'].split('|', 1)[1], o['detail']))
     for n in ctx.notes:
         out.append('NOTE      %-8s %s  %s' % (n['rule'], n['where'], n['text']))
     for o in listed:
